@@ -2,6 +2,7 @@ import SFV.Lemmas.CombDotSpec
 import SFV.Lemmas.CombCartMain
 import SFV.Lemmas.CombNested
 import SFV.Lemmas.CombNestedCart
+import SFV.Lemmas.CombNestedDot
 /-! # C02 — combinators emit exactly the right combinations, whatever the arrival order
 
 Property theorems only. The statements are about the LOOP-FAITHFUL executable model of
@@ -199,5 +200,36 @@ example : WFNest 2 2 [2] [(0, ⟨[0, 0], 1⟩), (0, ⟨[0, 1], 2⟩), (1, ⟨[0,
 example : (specE 2 (derivedSpec 2 [2]
     [(0, ⟨[0, 0], 1⟩), (0, ⟨[0, 1], 2⟩), (1, ⟨[0, 0], 3⟩), (1, ⟨[0, 1], 4⟩), (2, ⟨[0], 5⟩)])).map (·.1) =
     [[0, 0, 0], [0, 0, 1], [0, 1, 0], [0, 1, 1]] := by decide +kernel
+
+/-- **Nested `dot[dot[p0 … p(Pi-1)], plain ports]`, any arrival order** (the tree the CWL translator builds for a
+    dot-product scatter plus non-scattered inputs). `WFNestD Pi M plains S`: `Pi ≥ 1`, ports below `M`, the tokens of
+    the inner ports form a well-formed stream of the dot product (`WFDot Pi`), all tags rooted at `0`, no repeated
+    event, the other tokens arrive on the listed plain ports, on every plain port no tag is a prefix of another.
+    `derivedSpecD Pi plains S` — a function of the stream only — lists the elements the outer dot product should
+    combine: the specified emissions of the inner dot product (entries in port order) and the plain tokens. For
+    every arrival order there is a stream `D` of elements (what the outer combinator is actually fed: the inner
+    schemas come in dict order) which, after sorting the entries of every element by port (`canonEv M`), is a
+    permutation of `derivedSpecD`, and the emitted schemas are, each up to the order of its entries, exactly one
+    combination per complete tag of `D` (`specE`). NOT covered: exceptions after the last specified emission. -/
+theorem nested_dot_any_order (Pi M : Nat) (plains : List Nat) (S es : List Ev) (hwf : WFNestD Pi M plains S)
+    (hperm : es.Perm S) :
+    ∃ D N, (D.map (canonEv M)).Perm (derivedSpecD Pi plains S) ∧
+      EmRel (runNested (nestItemsD Pi plains) es).out N ∧ N.Perm (specE (plains.length + 1) D) :=
+  Comb.nested_dot_any_order S es hwf hperm
+
+/-- non-vacuity: inner dot product over ports 0, 1 (tags `0.0`, `0.1` on both), the broadcast token `0` on plain port 2 -/
+example : WFNestD 2 3 [2] [(0, ⟨[0, 0], 1⟩), (0, ⟨[0, 1], 2⟩), (1, ⟨[0, 0], 3⟩), (1, ⟨[0, 1], 4⟩), (2, ⟨[0], 5⟩)] := by
+  constructor
+  · decide
+  · decide
+  · unfold WFDot Rooted; decide
+  · unfold Rooted; decide
+  · decide
+  · decide
+  · decide
+  · decide
+example : (specE 2 (derivedSpecD 2 [2]
+    [(0, ⟨[0, 0], 1⟩), (0, ⟨[0, 1], 2⟩), (1, ⟨[0, 0], 3⟩), (1, ⟨[0, 1], 4⟩), (2, ⟨[0], 5⟩)])).map (·.1) =
+    [[0, 0], [0, 1]] := by decide +kernel
 
 end SFV.C02
